@@ -288,7 +288,7 @@ func newReport(sub string, seed uint64, tier string) *Report {
 	return &Report{Sub: sub, Seed: seed, Tier: tier, Dist: map[string]int{}, distinct: map[string]bool{}, Extra: map[string]interface{}{}}
 }
 
-func (r *Report) count(k string)    { r.Dist[k]++ }
+func (r *Report) count(k string)       { r.Dist[k]++ }
 func (r *Report) distinctKey(k string) { r.distinct[k] = true }
 func (r *Report) sample(v interface{}) {
 	if len(r.Samples) < 5 {
